@@ -1,0 +1,29 @@
+//go:build verif
+
+/*
+ * Accessors for the /verif harness.  Compiled only with `-tags verif`; add-only.
+ */
+
+package z
+
+import "unsafe"
+
+// VerifBloomState is a copy of the filter's private state; Bytes is the byte
+// view of the bitset in memory order (the same view JSONMarshal exports).
+type VerifBloomState struct {
+	Bytes   []byte
+	SizeExp uint64
+	Size    uint64
+	SetLocs uint64
+	Shift   uint64
+	ElemNum uint64
+}
+
+func (bl *Bloom) VerifState() VerifBloomState {
+	st := VerifBloomState{SizeExp: bl.sizeExp, Size: bl.size, SetLocs: bl.setLocs, Shift: bl.shift, ElemNum: bl.ElemNum}
+	st.Bytes = make([]byte, len(bl.bitset)*8)
+	for i := range st.Bytes {
+		st.Bytes[i] = *(*byte)(unsafe.Pointer(uintptr(unsafe.Pointer(&bl.bitset[0])) + uintptr(i)))
+	}
+	return st
+}
